@@ -43,7 +43,10 @@ man = {
     ],
     "checks": checks,
     "notes": "Static analysis only: no module of /repo is imported or executed by any check. exit 2 = ANALYSIS-ERROR "
-             "(anchor vanished / unsupported construct), never reported as a violation.",
+             "(anchor vanished / unsupported construct), never reported as a violation. Two rules run with every check on the functions "
+             "it analysed: a coroutine function of the package called without being awaited / scheduled (<id>.await) and an exception "
+             "constructed but not raised (<id>.raise). Asserts are conditional raises to every engine unless the asserted condition is "
+             "proven from the path (lengths, integer ranges, classes).",
     "not_applicable": na,
 }
 with open(os.path.join(os.path.dirname(os.path.abspath(__file__)), "MANIFEST.json"), "w") as fh:
